@@ -135,6 +135,82 @@ theorem splitn_no_panic (dbg : Bool) (s : Str) (n : U64) (sep : Str) : bind_Roto
 theorem rsplitn_no_panic (dbg : Bool) (s : Str) (n : U64) (sep : Str) : bind_RotoString_rsplitn dbg s n sep ≠ .panic := by
   simp [bind_RotoString_rsplitn, RotoString_rsplitn]
 
+/-! ### `List.get` / `List.swap`: index validation and offset arithmetic -/
+
+omit [Target] in
+theorem val_nonneg_unsigned {w} (x : RInt false w) : 0 ≤ x.val := by
+  simp [RInt.val]
+
+/-- The allocation invariant of a live `RawList`: its `size * len` bytes are
+    addressable (`len ≤ capacity` and `Layout::array(size, capacity)` succeeded). -/
+def wf (l : RawListS) : Prop := l.size.val * l.len.val ≤ RInt.maxVal false Target.usizeBits
+
+theorem offset_no_panic (dbg : Bool) (l : RawListS) (h : wf l) (i : USz) (hi : i.val < l.len.val) :
+    ∃ o, RawList_offset_of dbg l i = .ok o := by
+  unfold RawList_offset_of
+  simp only [RArith.mul, RInt.mul, RInt.arith]
+  have h0 := val_nonneg_unsigned l.size
+  have h1 := val_nonneg_unsigned i
+  have hle : l.size.val * i.val ≤ l.size.val * l.len.val := Int.mul_le_mul_of_nonneg_left (Int.le_of_lt hi) h0
+  have hin : RInt.inRange false Target.usizeBits (l.size.val * i.val) = true := by
+    unfold wf at h
+    simp [RInt.inRange, RInt.minVal]
+    exact ⟨Int.mul_nonneg h0 h1, Int.le_trans hle h⟩
+  simp [hin]
+
+theorem raw_get_no_panic (dbg : Bool) (l : RawListS) (h : wf l) (i : USz) : RawList_get dbg l i ≠ .panic := by
+  unfold RawList_get
+  simp only [ROrd.ge, RInt.ge]
+  by_cases hc : i.val ≥ l.len.val
+  · simp [hc]
+  · have hi : i.val < l.len.val := by omega
+    obtain ⟨o, ho⟩ := offset_no_panic dbg l h i hi
+    simp [hc, ho]
+
+/-- `List.get(idx)` for every `idx : u64`: the conversion `try_into().ok()` and
+    the bounds check `idx >= self.len` guard the offset multiplication, which
+    therefore cannot overflow (debug profile) on a well-formed list. -/
+theorem list_get_no_panic (dbg : Bool) (l : RawListS) (h : wf l) (idx : U64) : list_get_lookup dbg l idx ≠ .panic := by
+  unfold list_get_lookup
+  cases RInt.try_into idx with
+  | none => simp [RQ.bind]
+  | some i =>
+    have := raw_get_no_panic dbg l h i
+    cases hr : RawList_get dbg l i with
+    | ok v => simp [RQ.bind, hr]
+    | panic => exact absurd hr this
+
+theorem raw_swap_no_panic (dbg : Bool) (l : RawListS) (h : wf l) (i j : USz) : RawList_swap dbg l i j ≠ .panic := by
+  unfold RawList_swap
+  simp only [ROrd.ge, RInt.ge, REq.eq]
+  by_cases hi : i.val ≥ l.len.val
+  · simp [hi]
+  · by_cases hj : j.val ≥ l.len.val
+    · simp [hi, hj]
+    · obtain ⟨oi, hoi⟩ := offset_no_panic dbg l h i (by omega)
+      obtain ⟨oj, hoj⟩ := offset_no_panic dbg l h j (by omega)
+      by_cases he : i = j
+      · simp [hj, he]
+      · simp [hi, hj, he, hoi, hoj]
+
+/-- `List.swap(i, j)` for all `i, j : u64` (`i as usize`, `j as usize`). -/
+theorem list_swap_no_panic (dbg : Bool) (l : RawListS) (h : wf l) (i j : U64) : bind_ErasedList_swap dbg l i j ≠ .panic := by
+  unfold bind_ErasedList_swap
+  have := raw_swap_no_panic dbg l h (RCast.cast i : USz) (RCast.cast j : USz)
+  cases hr : RawList_swap dbg l (RCast.cast i : USz) (RCast.cast j : USz) with
+  | ok v => simp
+  | panic => exact absurd hr this
+
+-- the invariant is satisfiable, and it is needed (the bounds check alone does
+-- not bound `size * idx` in a debug profile):
+@[reducible] def t64 : Target := ⟨64⟩
+omit [Target] in
+example : @wf t64 (@RawListS.mk t64 ⟨BitVec.ofNat 64 8⟩ ⟨BitVec.ofNat 64 5⟩ ⟨BitVec.ofNat 64 8⟩) := by
+  unfold wf; decide
+omit [Target] in
+example : @RawList_get t64 true (@RawListS.mk t64 ⟨BitVec.ofNat 64 (2 ^ 63)⟩ ⟨BitVec.ofNat 64 3⟩ ⟨BitVec.ofNat 64 4⟩)
+    (⟨BitVec.ofNat 64 2⟩ : @USz t64) = .panic := by decide
+
 /-! ### the panic surface of *every* binding and of every `string.rs` method -/
 
 def panics : Risk → Bool
